@@ -7,6 +7,7 @@ pub uninterp spec fn appended(stream: Seq<char>, seq: u64) -> bool;   // the tru
 pub uninterp spec fn advanced(stream: Seq<char>, to: u64) -> bool;    // the counter of `stream` was moved to `to` by +1 after that append
 pub uninterp spec fn lineage_frame(stream: Seq<char>, seq: u64, cut: u64, mid: Option<String>) -> bool;   // the truth log accepted a branched/handoff frame (stream, seq) recording (cut, message id)
 
+pub uninterp spec fn offered(stream: Seq<char>, seq: u64) -> bool;   // a frame (stream, seq) was handed to the truth log's appender (whatever the appender answered)
 pub uninterp spec fn handoff_has_summary(stream: Seq<char>) -> bool;   // the handoff frame of `stream` carries a summary artifact id
 
 pub struct IoError { pub filler: u8 }
@@ -18,6 +19,7 @@ impl EventLog {
     pub fn append(&self, e: &Event) -> (r: Result<(), IoError>)
         requires reserved(e.session_id@, e.seq),   // [log.append.requires_reserved]
         ensures
+            offered(e.session_id@, e.seq),
             r is Ok ==> appended(e.session_id@, e.seq),
             r is Ok ==> (e.kind matches EventKind::ContinuityBranched { parent_seq, parent_message_id, .. } ==> lineage_frame(e.session_id@, e.seq, parent_seq, parent_message_id)),
             r is Ok ==> (e.kind matches EventKind::ContinuityHandoffCreated { from_seq, from_message_id, summary_artifact_id, .. } ==> (lineage_frame(e.session_id@, e.seq, from_seq, from_message_id) && (summary_artifact_id is Some ==> handoff_has_summary(e.session_id@)))),
